@@ -23,7 +23,8 @@ func init() {
 	ev.Rule("a transcript = cleartext prefix + key + 2-6 messages of 1-4 protected frames (0-300 bytes each) produced by the real sender; " +
 		"faults = every single bit flip, frame drop/duplicate/swap/replay/cut, forged frames (len 0, 1-15, 16, 17-64; end flag 0/1) at every position, " +
 		"truncation at every byte, plus generated 2-4 fault combinations; oracle: a fresh real receiver holding the key delivers exactly sent[0:n] " +
-		"with n <= index of the first message containing the first altered byte, then an error; " +
+		"with n <= index of the first message containing the first altered byte, then an error; in a third of the transcripts the receiver " +
+		"(which has then sent 1-3 protected messages itself) exports its crypto state after k delivered messages and continues as the stream rebuilt from the blob; " +
 		"non-trivial = the edit changes the byte stream and the transcript has a multi-frame message; distinct by (transcript, fault list)")
 	ev.Assume("the reference opener (kit.RefDir) independently confirms that the unedited transcript is the sender's plaintext")
 }
@@ -42,6 +43,12 @@ type Transcript struct {
 	// receiver takes it with GetSecret (both on the already-encrypting stream). Protection of everything
 	// that follows must be unaffected.
 	Secret bool `json:"secret,omitempty"`
+	// Handoff k > 0: the receiver has itself sent Acks (1-3) protected messages, and once it has delivered k
+	// messages it exports its crypto state and carries on as a stream rebuilt from the blob on the same
+	// connection (the documented process hand-off). The rebuilt stream is still the protected stream: the
+	// same prefix rule holds, replays of frames delivered before the hand-off included.
+	Handoff int `json:"handoff,omitempty"`
+	Acks    int `json:"acks,omitempty"`
 }
 
 const theSecret = "s3cr3t-claim-4711"
@@ -253,6 +260,13 @@ func (b *built) freshReceiver() (*stream.Stream, *kit.MemConn) {
 			panic(fmt.Sprintf("C02 harness: fresh receiver could not take the secret: %q %v", got, err))
 		}
 	}
+	if b.tr.Handoff > 0 {
+		for i := 0; i < b.tr.Acks; i++ {
+			if err := r.SendMessage(kit.Bg, []byte("ack")); err != nil {
+				panic(fmt.Sprintf("C02 harness: fresh receiver could not send: %v", err))
+			}
+		}
+	}
 	return r, c
 }
 
@@ -392,6 +406,17 @@ func (b *built) deliver(edited []byte, api int) (msgs [][]byte, err error) {
 			m = []byte{}
 		}
 		msgs = append(msgs, m)
+		if b.tr.Handoff > 0 && len(msgs) == b.tr.Handoff {
+			blob, xerr := r.ExportCryptoState()
+			if xerr != nil {
+				return msgs, fmt.Errorf("hand-off: export at a message boundary refused: %w", xerr)
+			}
+			r2, ierr := stream.NewStreamWithCryptoState(c, blob)
+			if ierr != nil {
+				return msgs, fmt.Errorf("hand-off: import of the exported blob refused: %w", ierr)
+			}
+			r = r2
+		}
 	}
 	return msgs, fmt.Errorf("receiver kept delivering messages")
 }
@@ -459,6 +484,9 @@ func genTranscript(t *rapid.T) Transcript {
 		}
 		tr.Msgs = append(tr.Msgs, m)
 	}
+	if rapid.IntRange(0, 2).Draw(t, "handoff?") == 0 {
+		tr.Handoff, tr.Acks = rapid.IntRange(1, n-1).Draw(t, "handoff"), rapid.IntRange(1, 3).Draw(t, "acks")
+	}
 	return tr
 }
 
@@ -487,6 +515,9 @@ func record(c Case, changed bool) {
 		if len(c.Faults) > 1 {
 			class = "multi-fault"
 		}
+	}
+	if c.T.Handoff > 0 {
+		class = "handoff/" + class
 	}
 	k := ""
 	if changed && multiFrame(c.T) {
@@ -538,6 +569,9 @@ func TestC02Exhaustive(t *testing.T) {
 		x := uint32(seed)*2654435761 + uint32(ti)*40503
 		tr := Transcript{Prefix: int(x>>3) % 4, Dir: ti % 2, Typed: ti%3 == 2, Salt: x, Secret: ti%4 == 3}
 		nm := 2 + int(x>>7)%3
+		if ti%5 == 1 || ti%5 == 4 {
+			tr.Handoff, tr.Acks = 1+int(x>>11)%(nm-1), 1+int(x>>13)%3
+		}
 		sizes := []int{0, 1, 15, 16, 17, 40, 100}
 		for i := 0; i < nm; i++ {
 			var m TMsg
